@@ -52,6 +52,9 @@ func Generate(property, tier string, seed uint64) *Trace {
 		return s, slotPass[s]
 	}
 	for i := 0; i < n; i++ {
+		if r.Chance(0.06) {
+			tr.Steps = append(tr.Steps, Step{Op: "power_loss"})
+		}
 		if r.Chance(0.12) {
 			tr.Steps = append(tr.Steps, Step{Op: "crash", K: []int{0, 0, 1, 1, 2}[r.Intn(5)]})
 		}
